@@ -1162,15 +1162,22 @@ def o_qhull(mir, tier, seed):
     return dict(theory='structural (opaque points, every concrete index pair for n = 4, 5, 6; no symbolic branch)', functions=['convex_hull::qhull::quick_hull', 'convex_hull::swap_with_first_and_remove'], paths=npaths, status=st, info=info, model=None, replay=('quick_hull_extremes', ''))
 
 
+def reduce_max(xs):
+    r = xs[0]
+    for x in xs[1:]:
+        r = z3.If(r >= x, r, x)
+    return r
+
+
 # ---- C01: the named predicates read the matrix by the OGC masks
 
-@obligation('C01', 'named_predicates_match_masks', 'for ANY DE-9IM matrix (nine entries, each F / 0 / 1 / 2): is_disjoint = FF*FF****, is_intersects = its negation, is_within = T*F**F***, is_contains = T*****FF*, is_coveredby = T*F**F*** | *TF**F*** | **FT*F*** | **F*TF***, is_covers = T*****FF* | *T****FF* | ***T**FF* | ****T*FF*, is_touches = FT******* | F**T***** | F***T**** (row-major II IB IE BI BB BE EI EB EE; T = not F)')
+@obligation('C01', 'named_predicates_match_masks', 'for ANY DE-9IM matrix (nine entries, each F / 0 / 1 / 2): is_disjoint = FF*FF****, is_intersects = its negation, is_within = T*F**F***, is_contains = T*****FF*, is_coveredby = T*F**F*** | *TF**F*** | **FT*F*** | **F*TF***, is_covers = T*****FF* | *T****FF* | ***T**FF* | ****T*FF*, is_touches = FT******* | F**T***** | F***T****, is_equal_topo = T*F**FFF* or the matrix of two empty operands, is_crosses = T*T****** / T*****T** / 0******** for dim A < / > / = dim B = 1, is_overlaps = 1*T***T** for lines, T*T***T** for points or areas, where dim A / dim B are the maxima of row I / column I (row-major II IB IE BI BB BE EI EB EE; T = not F)')
 def o_masks(mir, tier, seed):
     IM = r'intersection_matrix::<impl at [^>]*>::'
     T = IntTheory()
     pos = ['Inside', 'OnBoundary', 'Outside']
     dimn = ['Empty', 'ZeroDimensional', 'OneDimensional', 'TwoDimensional']
-    m = {(r, c): z3.Int('im_%s_%s' % (r[0], c[0])) for r in pos for c in pos}
+    m = {(r, c): z3.Int('im_%s_%s' % (r, c)) for r in pos for c in pos}
     dom = [z3.And(v >= 0, v <= 3) for v in m.values()]
     order = [(r, c) for r in pos for c in pos]
 
@@ -1196,6 +1203,17 @@ def o_masks(mir, tier, seed):
     extra = dict(EXTRA)
     extra[r'IntersectionMatrix::is_disjoint'] = ('geo', IM + 'is_disjoint')
     uf = {'re:<LocationArray<LocationArray<Dimensions>> as Index<CoordPos>>::index': row, 're:<LocationArray<Dimensions> as Index<CoordPos>>::index': cell}
+    # the dimension-dependent ones: dim(A) = max of row I, dim(B) = max of column I (as JTS / OGC define them on the matrix)
+    dA = reduce_max([m[('Inside', c)] for c in pos])
+    dB = reduce_max([m[(r, 'Inside')] for r in pos])
+    II, IE, EI = m[('Inside', 'Inside')], m[('Inside', 'Outside')], m[('Outside', 'Inside')]
+    specs['is_crosses'] = z3.If(dA < dB, z3.And(II != 0, IE != 0), z3.If(dA > dB, z3.And(II != 0, EI != 0), z3.And(dA == 2, dB == 2, II == 1)))
+    specs['is_overlaps'] = z3.If(z3.And(dA == 2, dB == 2), z3.And(II == 2, IE != 0, EI != 0),
+                                 z3.If(z3.Or(z3.And(dA == 1, dB == 1), z3.And(dA == 3, dB == 3)), z3.And(II != 0, IE != 0, EI != 0), z3.BoolVal(False)))
+    empty_disjoint = z3.And([m[rc] == (3 if rc == ('Outside', 'Outside') else 0) for rc in order])
+    specs['is_equal_topo'] = z3.Or(empty_disjoint, mask('T*F**FFF*'))
+    uf['re:IntersectionMatrix::empty_disjoint'] = lambda ip, d: ('empty-disjoint',)
+    uf['re:<&IntersectionMatrix as PartialEq>::eq'] = lambda ip, d: empty_disjoint
     bad, npaths = [], 0
     for name, want in specs.items():
         ip = Interp(mir, T, extra, uf)
@@ -1208,7 +1226,7 @@ def o_masks(mir, tier, seed):
             r = deref(r)
             bad.append(z3.And(c, pc, (z3.BoolVal(r) if isinstance(r, bool) else r) != want))
     st, info, model = check_unsat('named_predicates_match_masks', [z3.Or(bad)])
-    return dict(theory='Int (matrix entries as 0..3), all 4^9 matrices symbolically', functions=['IntersectionMatrix::{is_disjoint, is_intersects, is_within, is_contains, is_coveredby, is_covers, is_touches}'], paths=npaths, status=st, info=info, model=None, replay=('matrix_predicates', ''))
+    return dict(theory='Int (matrix entries as 0..3), all 4^9 matrices symbolically', functions=['IntersectionMatrix::{is_disjoint, is_intersects, is_within, is_contains, is_coveredby, is_covers, is_touches, is_equal_topo, is_crosses, is_overlaps}'], paths=npaths, status=st, info=info, model=None, replay=('matrix_predicates', ''))
 
 
 # ---- C01: two units of the relate graph - the mod-2 boundary rule at a node, the angular order of edge ends
